@@ -9,6 +9,10 @@ CONSTANTS
   FixOct0 = TRUE
   FixSkip = FALSE
   FixUncl = TRUE
+  FixCase = TRUE
+  FixItems = TRUE
+  Lenient <- LenNone
+  WithLex = FALSE
   Emit = FALSE
   WithBad = FALSE
 INVARIANT ImplEqualsClaims
